@@ -269,6 +269,13 @@ def goResolve (b r : Str) : Str :=
   then RFC3986Lite.recompose { scheme := B.scheme, authority := B.authority, path := [], query := R.query, fragment := R.fragment }
   else RFC3986Lite.resolve b r
 
+/-- Model of "`url.Parse(ref)` succeeds" on the same domain: the only rejection that remains there is
+    `first path segment in URL cannot contain colon` / `missing protocol scheme`. A reference that has
+    no scheme in the sense of Appendix B but a colon in its first segment necessarily starts with the
+    colon (otherwise the text before it would be the scheme). RFC 3986 §4.2 excludes such references
+    (`path-noscheme`). -/
+def goParseOK (r : Str) : Bool := r.head? != some cColon
+
 /-- `iri.BaseIRI`; an index of −1 is `none`. `root = some (rootIndex, directoryIndex)` iff the base is absolute. -/
 structure BaseIRI where
   original : Str
@@ -349,7 +356,7 @@ def relativizeB (rb : BaseIRI) (v : Str) : Outcome :=
   match candidate rb v with
   | .some rel =>
     if rb.root.isSome then
-      (if goResolve rb.original rel = v then .some rel else .none)
+      (if goParseOK rel = true ∧ goResolve rb.original rel = v then .some rel else .none)
     else .some rel
   | o => o
 
